@@ -44,7 +44,7 @@ def tree_hash(root, exts=None):
 class Query:
     """One solver query = one harness entry in one configuration."""
     def __init__(self, name, src, entry, defs=None, std='c++17', opt='-O1', unwind=12, unwindset=None, arena=(4, 64),
-                 timeout=300, mem_gb=10, object_bits=None, ndebug=True, nonstd=True, hooks=(), note='', expect_reach=None,
+                 timeout=300, mem_gb=4, object_bits=None, ndebug=True, nonstd=True, hooks=(), note='', expect_reach=None,
                  symbolic='', bounds=None, miter=None, extra_cbmc=()):
         self.name, self.src, self.entry = name, src, entry
         self.defs = dict(defs or {})
@@ -278,7 +278,35 @@ def loop_of(prop):
     if m: return m.group(1)
     return None
 
+class MemBudget:
+    """Queries declare a memory cap (ulimit); the sum of the caps of running queries stays below the machine's RAM."""
+    def __init__(self, total_gb):
+        self.total, self.used, self.cv = total_gb, 0.0, threading.Condition()
+    def acquire(self, gb):
+        gb = min(gb, self.total)
+        with self.cv:
+            while self.used + gb > self.total: self.cv.wait()
+            self.used += gb
+        return gb
+    def release(self, gb):
+        with self.cv:
+            self.used -= gb; self.cv.notify_all()
+def _ram_gb():
+    try:
+        for l in open('/proc/meminfo'):
+            if l.startswith('MemAvailable'): return int(l.split()[1]) / (1 << 20)
+    except Exception: pass
+    return 16.0
+BUDGET = MemBudget(max(4.0, float(os.environ.get('VERIF_MEM_GB', '0')) or _ram_gb() * 0.85))
+
 def decide(b, q, hints, unwind_cap=300):
+    gb = BUDGET.acquire(q.mem_gb)
+    try:
+        return _decide(b, q, hints, unwind_cap)
+    finally:
+        BUDGET.release(gb)
+
+def _decide(b, q, hints, unwind_cap=300):
     """Run CBMC for one query; automatically raise per-loop unwinding bounds that are too small (never reports
     success with a failed unwinding assertion)."""
     unwindset = dict(hints.get(q.name, {})); unwindset.update(q.unwindset)
